@@ -24,15 +24,32 @@ pub fn sx_select(s: &Sx) -> Select {
         q = q.columns(&names);
     }
     if let Some(c) = l[3].as_opt() {
-        q = q.with(sx_expr(c));
+        for part in conjuncts(c) {
+            q = q.with(sx_expr(part));
+        }
     }
     q
+}
+
+/// A condition `(and (and a b) c)` is handed over as the documented chain `.with(a).with(b).with(c)`, which must mean
+/// the same as the single conjunction; deeper conjunctions still go through `Expr::and`.
+fn conjuncts(c: &Sx) -> Vec<&Sx> {
+    let l = c.as_list();
+    if l.len() == 3 && l[0] == Sx::sym("and") {
+        let mut v = conjuncts(&l[1]);
+        v.push(&l[2]);
+        v
+    } else {
+        vec![c]
+    }
 }
 
 pub fn sx_delete(n: &Sx, cond: &Sx) -> Delete {
     let mut q = Delete::from(n.as_string());
     if let Some(c) = cond.as_opt() {
-        q = q.with(sx_expr(c));
+        for part in conjuncts(c) {
+            q = q.with(sx_expr(part));
+        }
     }
     q
 }
@@ -44,7 +61,9 @@ pub fn sx_update(n: &Sx, ups: &Sx, cond: &Sx) -> Update {
         q = q.set(u[0].as_string(), sx_value(&u[1]));
     }
     if let Some(c) = cond.as_opt() {
-        q = q.with(sx_expr(c));
+        for part in conjuncts(c) {
+            q = q.with(sx_expr(part));
+        }
     }
     q
 }
@@ -194,8 +213,16 @@ pub fn build_cfb(clsid: &[u8], entries: &[(String, Vec<u8>)]) -> Vec<u8> {
         comp.set_storage_clsid("/", Uuid::from_bytes(arr)).expect("harness: clsid");
     }
     for (name, data) in entries {
+        // "Storage/Inner": a stream inside a sub-storage (patch packages and embedded transforms are laid out like that)
         let mut path = std::path::PathBuf::from("/");
-        path.push(name);
+        let parts: Vec<&str> = name.split('/').collect();
+        for dir in &parts[..parts.len() - 1] {
+            path.push(dir);
+            if !comp.is_storage(&path) {
+                comp.create_storage(&path).expect("harness: cfb create_storage");
+            }
+        }
+        path.push(parts[parts.len() - 1]);
         let mut s = comp.create_stream(&path).expect("harness: cfb create_stream");
         s.write_all(data).expect("harness: cfb write");
     }
@@ -345,19 +372,84 @@ fn readonly_session(st: &mut State, mode: &str) -> Sx {
     Sx::ok(Sx::L(vec![Sx::I(w as i128), Sx::boolean(equal)]))
 }
 
+/// C16 through the path-based entry points of the crate (msi::open, msi::open_rw): the package is saved to a file under
+/// build/, opened by path, read, closed in the given way; -> (ok file-bytes-identical)
+fn readonly_path(st: &mut State, how: &str, mode: &str) -> Sx {
+    let p = st.pkg.take().expect("harness: no package");
+    let bytes = match p.into_inner() {
+        Ok(m) => m.snapshot(),
+        Err(_) => return Sx::sym("into_inner_err"),
+    };
+    let dir = std::env::var("MSI_VERIF_TMP").unwrap_or_else(|_| "/verif/build/tmp".to_string());
+    let _ = std::fs::create_dir_all(&dir);
+    let path = format!("{}/ro-{}.msi", dir, std::process::id());
+    if std::fs::write(&path, &bytes).is_err() {
+        return Sx::sym("harness_error");
+    }
+    let r = std::panic::catch_unwind(|| -> Result<(), ()> {
+        let mut q = if how == "rw" { msi::open_rw(&path).map_err(|_| ())? } else { msi::open(&path).map_err(|_| ())? };
+        let _ = q.package_type();
+        let _ = q.database_codepage();
+        let names: Vec<String> = q.tables().map(|t| t.name().to_string()).collect();
+        for n in names.iter() {
+            let _ = q.has_table(n);
+            if let Ok(rows) = q.select_rows(Select::table(n.clone())) {
+                let _ = rows.count();
+            }
+        }
+        let streams: Vec<String> = q.streams().collect();
+        for s in streams.iter() {
+            if let Ok(mut r) = q.read_stream(s) {
+                let mut b = Vec::new();
+                let _ = r.read_to_end(&mut b);
+            }
+        }
+        let _ = q.has_digital_signature();
+        let _ = q.summary_info().author().map(|a| a.len());
+        match mode {
+            "flush" if how == "rw" => {
+                // (a package opened read-only by path has no flush: its file is not writable)
+                let mut q = q;
+                q.flush().map_err(|_| ())?;
+                drop(q);
+            }
+            "into_inner" => {
+                let _ = q.into_inner().map_err(|_| ())?;
+            }
+            _ => drop(q),
+        }
+        Ok(())
+    });
+    let after = std::fs::read(&path).unwrap_or_default();
+    let _ = std::fs::remove_file(&path);
+    let _ = open_bytes(st, bytes.clone());
+    match r {
+        Ok(Ok(())) => Sx::ok(Sx::boolean(after == bytes)),
+        Ok(Err(())) => Sx::err(),
+        Err(_) => Sx::panic(),
+    }
+}
+
 /// C15: run a script on a fresh package whose medium fails write call number `k` (once, or from then on), close it in
 /// the given mode, then disarm the fault and reopen whatever bytes reached the medium.
 /// -> ((result per call incl. create) close-result faults-hit write-calls snapshot-after-reopen)
-fn fault_run(k: i128, persistent: bool, mode: &str, cmds: &[Sx]) -> Sx {
+fn fault_run(k: i128, persistent: bool, mode: &str, cmds: &[Sx], start: Option<Vec<u8>>) -> Sx {
     use std::panic::{catch_unwind, AssertUnwindSafe};
-    let medium = Medium::new(Vec::new());
+    let existing = start.is_some();
+    let medium = Medium::new(start.unwrap_or_default());
     let mut st = State::new();
     st.medium = Some(medium.clone());
     if k >= 0 {
         medium.inner.borrow_mut().fail_write_at = Some((k as u64, persistent));
     }
     let mut results = Vec::new();
-    match catch_unwind(AssertUnwindSafe(|| Package::create(PackageType::Installer, medium.clone()))) {
+    match catch_unwind(AssertUnwindSafe(|| {
+        if existing {
+            Package::open(medium.clone())
+        } else {
+            Package::create(PackageType::Installer, medium.clone())
+        }
+    })) {
         Ok(Ok(p)) => {
             st.pkg = Some(p);
             results.push(Sx::sym("ok"));
@@ -415,7 +507,16 @@ fn fault_run(k: i128, persistent: bool, mode: &str, cmds: &[Sx]) -> Sx {
     };
     let mut st2 = State::new();
     let snap = match catch_unwind(AssertUnwindSafe(|| open_bytes(&mut st2, medium.snapshot()))) {
-        Ok(o) if format!("{}", o) == "(ok ())" => pkg_cmd(&mut st2, "snapshot", &[]).unwrap_or(Sx::sym("nosnap")),
+        Ok(o) if format!("{}", o) == "(ok ())" => {
+            let snap = pkg_cmd(&mut st2, "snapshot", &[]).unwrap_or(Sx::sym("nosnap"));
+            if existing {
+                // a session on an existing (possibly signed) file: the signature state is part of what must have been saved
+                let sig = pkg_cmd(&mut st2, "has_sig", &[]).unwrap_or(Sx::sym("nosig"));
+                Sx::L(vec![snap, sig])
+            } else {
+                snap
+            }
+        }
         Ok(_) => Sx::sym("unopenable"),
         Err(_) => Sx::sym("open_panicked"),
     };
@@ -538,7 +639,45 @@ pub fn pkg_cmd(st: &mut State, name: &str, args: &[Sx]) -> Option<Sx> {
             };
             Some(Sx::ok(Sx::string(&text)))
         }
-        ("x_fault_run", [k, persistent, mode, cmds]) => Some(fault_run(k.as_int(), persistent.as_bool(), mode.as_sym(), cmds.as_list())),
+        ("x_fault_run", [k, persistent, mode, cmds]) => Some(fault_run(k.as_int(), persistent.as_bool(), mode.as_sym(), cmds.as_list(), None)),
+        // the same on the package at hand: it is saved, and the script runs on a session that OPENS the saved bytes
+        ("x_fault_on", [k, persistent, mode, cmds]) => {
+            let p = match st.pkg.take() {
+                Some(p) => p,
+                None => return Some(Sx::sym("nopkg")),
+            };
+            let bytes = match p.into_inner() {
+                Ok(m) => m.snapshot(),
+                Err(_) => return Some(Sx::sym("into_inner_err")),
+            };
+            let r = fault_run(k.as_int(), persistent.as_bool(), mode.as_sym(), cmds.as_list(), Some(bytes.clone()));
+            let _ = open_bytes(st, bytes);
+            Some(r)
+        }
+        // arm / disarm a write fault on the medium of the package at hand (a save that fails, then is retried)
+        ("x_arm", [k, persistent]) => Some(match &st.medium {
+            Some(m) => {
+                let mut g = m.inner.borrow_mut();
+                g.armed_writes = 0;
+                g.fail_write_at = Some((k.as_int() as u64, persistent.as_bool()));
+                Sx::unit()
+            }
+            None => Sx::sym("nopkg"),
+        }),
+        ("x_disarm", []) => Some(match &st.medium {
+            Some(m) => {
+                let mut g = m.inner.borrow_mut();
+                g.fail_write_at = None;
+                Sx::I(g.faults_hit as i128)
+            }
+            None => Sx::sym("nopkg"),
+        }),
+        ("x_readonly_path", [how, mode]) => {
+            if st.pkg.is_none() {
+                return Some(Sx::sym("nopkg"));
+            }
+            Some(readonly_path(st, how.as_sym(), mode.as_sym()))
+        }
         ("x_mutate_open", [seed, n, mode]) => Some(mutate_open(st, seed.as_int() as u64, n.as_int() as u64, mode.as_int() as u64)),
         ("add_signature", []) => {
             if st.pkg.is_none() {
